@@ -2,7 +2,7 @@
 with the branch constraints taken and the value returned on each path.  Exact for functions whose
 control flow depends only on a finite set of atoms (boolean calls such as is_empty, enum
 discriminants): the same atom (same provenance term) must keep one value along a path."""
-from .prov import strip_sites, pp, PathAn
+from .prov import strip_sites, pp, PathAn, unref
 
 
 class Undecidable(Exception):
@@ -86,32 +86,102 @@ def allows(c, v):
     return v not in c[1]
 
 
+_INT_W = {'u8': 8, 'i8': 8, 'u16': 16, 'i16': 16, 'u32': 32, 'i32': 32, 'u64': 64, 'i64': 64, 'usize': 64, 'isize': 64,
+          'u128': 128, 'i128': 128}
+# total functions bool/Choice -> u8 with value in {0, 1}
+_BOOL_TO_U8 = ('subtle::Choice::unwrap_u8',)
+_CONV = ('core::convert::Into::into', 'core::convert::From::from')
+
+
+def _is_int_const(x):
+    return x[0] == 'const' and isinstance(x[2], int) and not isinstance(x[2], bool) and x[1] in _INT_W
+
+
 def _collect_atoms(x, atoms_ok, out):
-    """atoms of a boolean expression; raises if a leaf is not an accepted atom"""
+    """atoms of a boolean / small-integer expression; raises if a leaf is not an accepted atom"""
     if x[0] == 'un' and x[1] == 'Not':
         return _collect_atoms(x[2], atoms_ok, out)
     if x[0] == 'const' and isinstance(x[2], bool):
+        return
+    if _is_int_const(x):
         return
     if atoms_ok(x):
         if x not in out:
             out.append(x)
         return
-    if x[0] == 'bin' and x[1] in ('Eq', 'Ne', 'BitAnd', 'BitOr', 'BitXor'):
+    if x[0] == 'bin' and x[1] in ('Eq', 'Ne', 'BitAnd', 'BitOr', 'BitXor', 'Lt', 'Le', 'Gt', 'Ge'):
         _collect_atoms(x[2], atoms_ok, out)
         _collect_atoms(x[3], atoms_ok, out)
         return
+    if x[0] == 'call' and x[1] in _BOOL_TO_U8 and len(x[2]) == 1:
+        return _collect_atoms(unref(x[2][0]), atoms_ok, out)
+    if x[0] == 'cast' and x[1] == 'IntToInt' and x[2] in _INT_W:
+        return _collect_atoms(x[3], atoms_ok, out)
     raise Undecidable('branch on a non-atom: ' + pp(x)[:120])
 
 
-def _beval(x, val, atoms_ok):
-    if x[0] == 'un' and x[1] == 'Not':
-        return not _beval(x[2], val, atoms_ok)
+def _veval(x, val, atoms_ok):
+    """bit-precise value of a term over boolean atoms: a Python bool, or (int value, width) for integers —
+    `!` on a u8 is the bitwise complement (0xFE / 0xFF), not logical negation"""
     if x[0] == 'const' and isinstance(x[2], bool):
         return x[2]
+    if _is_int_const(x):
+        w = _INT_W[x[1]]
+        return (x[2] & ((1 << w) - 1), w)
     if atoms_ok(x):
         return val[x]
-    l, r = _beval(x[2], val, atoms_ok), _beval(x[3], val, atoms_ok)
-    return {'Eq': l == r, 'Ne': l != r, 'BitAnd': l and r, 'BitOr': l or r, 'BitXor': l != r}[x[1]]
+    if x[0] == 'un' and x[1] == 'Not':
+        v = _veval(x[2], val, atoms_ok)
+        if isinstance(v, bool):
+            return not v
+        return ((~v[0]) & ((1 << v[1]) - 1), v[1])
+    if x[0] == 'call' and x[1] in _BOOL_TO_U8:
+        v = _veval(unref(x[2][0]), val, atoms_ok)
+        if not isinstance(v, bool):
+            raise Undecidable('unwrap_u8 of a non-boolean: ' + pp(x)[:100])
+        return (1 if v else 0, 8)
+    if x[0] == 'cast':
+        v = _veval(x[3], val, atoms_ok)
+        w = _INT_W[x[2]]
+        if isinstance(v, bool):
+            return (1 if v else 0, w)
+        return (v[0] & ((1 << w) - 1), w)     # unsigned/truncating; sign extension is not modelled
+    l, r = _veval(x[2], val, atoms_ok), _veval(x[3], val, atoms_ok)
+    if isinstance(l, bool) != isinstance(r, bool):
+        raise Undecidable('mixed boolean/integer operands: ' + pp(x)[:100])
+    op = x[1]
+    if isinstance(l, bool):
+        if op not in ('Eq', 'Ne', 'BitAnd', 'BitOr', 'BitXor'):
+            raise Undecidable('ordering comparison of booleans: ' + pp(x)[:100])
+        return {'Eq': l == r, 'Ne': l != r, 'BitAnd': l and r, 'BitOr': l or r, 'BitXor': l != r}[op]
+    (lv, lw), (rv, rw) = l, r
+    if lw != rw:
+        raise Undecidable('operand widths differ: ' + pp(x)[:100])
+    if op in _CMPI:
+        return _CMPI[op](lv, rv)
+    return ({'BitAnd': lv & rv, 'BitOr': lv | rv, 'BitXor': lv ^ rv}[op], lw)
+
+
+_CMPI = {'Eq': lambda x, y: x == y, 'Ne': lambda x, y: x != y, 'Lt': lambda x, y: x < y, 'Le': lambda x, y: x <= y,
+         'Gt': lambda x, y: x > y, 'Ge': lambda x, y: x >= y}
+
+
+def _beval(x, val, atoms_ok):
+    v = _veval(x, val, atoms_ok)
+    return v if isinstance(v, bool) else v[0]
+
+
+def _resolve(an, t):
+    """by-reference arguments of the modelled total conversions (Choice::unwrap_u8(&c)) are replaced by the value the
+    referenced local holds at the call"""
+    if not isinstance(t, tuple) or not t:
+        return t
+    if t[0] == 'call' and t[1] in _BOOL_TO_U8 and len(t[2]) == 1 and len(t) > 3 and t[2][0][0] == 'addr' and t[2][0][1][0] == 'local':
+        v = an.deref_val(t[2][0], an.term_point(t[3]))
+        return ('call', t[1], (_resolve(an, v),)) + tuple(t[3:])
+    if t[0] in ('un', 'bin', 'cast'):
+        return tuple(_resolve(an, x) if isinstance(x, tuple) else x for x in t)
+    return t
 
 
 def bool_table(a, atoms_ok):
@@ -123,7 +193,7 @@ def bool_table(a, atoms_ok):
     for bi in sorted(a.cfg.reach):
         t = a.body.blocks[bi]['term']
         if t['k'] == 'switch':
-            d = strip_sites(a.val_op(t['discr'], a.term_point(bi)))
+            d = strip_sites(_resolve(a, a.val_op(t['discr'], a.term_point(bi))))
             if d[0] == 'phi':
                 continue      # resolved path-sensitively during simulation
             _collect_atoms(d, atoms_ok, atoms)
@@ -150,13 +220,14 @@ def bool_table(a, atoms_ok):
                 rows.append((val, pa.ret_val(), last0))
                 break
             if t['k'] == 'switch':
-                d = strip_sites(PathAn(a, path).val_op(t['discr'], a.term_point(bi)))
+                pa = PathAn(a, path)
+                d = strip_sites(_resolve(pa, pa.val_op(t['discr'], a.term_point(bi))))
                 tmp = []
                 _collect_atoms(d, atoms_ok, tmp)
                 for x in tmp:
                     if x not in val:
                         raise Undecidable('atom discovered late: ' + pp(x)[:80])
-                b = 1 if _beval(d, val, atoms_ok) else 0
+                b = int(_beval(d, val, atoms_ok))
                 nxt = None
                 for v, tgt in t['targets']:
                     if v == b:
